@@ -246,6 +246,11 @@ GO_DERIVE = {
     'fillna': lambda f: f.fillna(0), 'iloc_all': lambda f: f.iloc[:, :], 'transpose2': lambda f: f.T.T, 'sort_columns': lambda f: f.sort_columns(ascending=False),
     'rename': lambda f: f.rename('r'), 'roll': lambda f: f.roll(1, 1), 'shift': lambda f: f.shift(0, 1, fill_value=f.iloc[0, 0]), 'astype_same': lambda f: f.astype(f.dtypes.values[0]),
     'round0': lambda f: round(f), 'round_neg': lambda f: round(f, -1), 'relabel': lambda f: f.relabel(columns=lambda c: c), 'relabel_index': lambda f: f.relabel(index=lambda c: c),
+    # (shape-changing calls too: the reading is compared with the blocks of whatever Frame results)
+    'drop_first': lambda f: f.drop.iloc[:, 0] if f.shape[1] > 1 else f.iloc[:, :], 'iloc_tail': lambda f: f.iloc[:, 1:] if f.shape[1] > 1 else f.iloc[:, :],
+    'head': lambda f: f.head(2), 'sort_values': lambda f: f.sort_values(f.columns[0]), 'assign_col': lambda f: f.assign[f.columns[0]](f[f.columns[0]].values),
+    'insert_after': lambda f: f.insert_after(f.columns[-1], f.relabel(columns=lambda c: 'ins_%s' % (c,))), 'insert_before': lambda f: f.insert_before(f.columns[0], f.iloc[:, :1].relabel(columns=('ins_0',))),
+    'from_concat': lambda f: type(f).from_concat((f,)), 'loc_rows': lambda f: f.loc[list(f.index)[::-1]], 'dropna': lambda f: f.dropna(axis=1, condition=np.all),
     'getitem_all': lambda f: f[list(f.columns)], 'reindex_cols': lambda f: f.reindex(columns=list(f.columns)[::-1]), 'drop_none': lambda f: f.drop[[]],
 }
 
